@@ -43,6 +43,9 @@ def judge(c, r, mo):
     if not any(x[0] == "1" for x in mo):
         return [{"what": "returned orientation %s with divisor %s is rejected by the verified certificate checker for every minimum-degree sink %s" % (o["pairs"], o["R"], common.min_vertices(c["D"]))}]
     if not o["full_flag"]: return [{"what": "check_fullness() is False on the returned orientation"}]
+    M = common.matrix(c["G"]); n = c["G"]["n"]; ind = [sum(M[w][v] for w, v2 in o["pairs"] if v2 == v) for v in range(n)]
+    if o["indeg"] != ind: return [{"what": "in-degrees reported by the returned orientation %s differ from the number of edges pointing in %s (orientation %s)" % (o["indeg"], ind, o["pairs"])}]
+    if any(o["R"][v] >= ind[v] for v in range(n) if ind[v] > 0): return [{"what": "a non-source vertex holds at least its in-degree: divisor %s, in-degrees %s" % (o["R"], ind)}]
     return []
 
 def oracle(c, r):
